@@ -124,9 +124,34 @@ func verifLexLexer(text string, opts LexerOptions) (res string) {
 	return sb.String()
 }
 
+// P1 field (compared with the model of the TL1 parser, Lex/LexParse1Model.v): ok | tokerr | panic |
+// err:<first 18 bytes of the innermost message>@outer@begin@end
+func verifLexP1(parser int, front string, panicked bool, err error) string {
+	if parser != 1 {
+		return "-"
+	}
+	if panicked {
+		return "panic"
+	}
+	if err == nil {
+		return "ok"
+	}
+	if front == "tokerr" {
+		return "tokerr"
+	}
+	var pe *ParseError
+	if !errors.As(err, &pe) {
+		return "err:notparseerror"
+	}
+	return "err:" + verifLexPrefix(pe.Err.Error(), 18) + "@" + verifLexPos(pe.Pos.Outer) + "@" + verifLexPos(pe.Pos.Begin) + "@" + verifLexPos(pe.Pos.End)
+}
+
 func verifLexParse(text string, parser int, opts LexerOptions) (front string, res string) {
-	var err error
-	panicked := false
+	front, res, panicked, err := verifLexParse0(text, parser, opts)
+	return front + " P1=" + verifLexP1(parser, front, panicked, err), res
+}
+
+func verifLexParse0(text string, parser int, opts LexerOptions) (front string, res string, panicked bool, err error) {
 	pmsg := ""
 	func() {
 		defer func() {
@@ -146,10 +171,10 @@ func verifLexParse(text string, parser int, opts LexerOptions) (front string, re
 		if strings.Contains(pmsg, "invariant violation in tokenizer") {
 			front = "panic"
 		}
-		return front, "P=panic:" + verifLexPrefix(pmsg, 80)
+		return front, "P=panic:" + verifLexPrefix(pmsg, 80), true, nil
 	}
 	if err == nil {
-		return "tokens", "P=ok"
+		return "tokens", "P=ok", false, nil
 	}
 	front = "tokens"
 	if strings.HasPrefix(err.Error(), "tokenizer error: ") {
@@ -157,7 +182,7 @@ func verifLexParse(text string, parser int, opts LexerOptions) (front string, re
 	}
 	var pe *ParseError
 	if !errors.As(err, &pe) {
-		return front, "P=err pe=0 msg=" + verifLexPrefix(err.Error(), 60)
+		return front, "P=err pe=0 msg=" + verifLexPrefix(err.Error(), 60), false, err
 	}
 	fc := pe.Pos.Outer.fileContent == text && pe.Pos.Begin.fileContent == text && pe.Pos.End.fileContent == text
 	cp := "ok"
@@ -186,7 +211,7 @@ func verifLexParse(text string, parser int, opts LexerOptions) (front string, re
 		_ = pe.Unwrap()
 	}()
 	return front, "P=err pe=1 o=" + verifLexPos(pe.Pos.Outer) + " b=" + verifLexPos(pe.Pos.Begin) + " e=" + verifLexPos(pe.Pos.End) +
-		" fc=" + verifLexB(fc) + " cp=" + cp + " cor=" + verifLexB(cor) + " es=" + es + " msg=" + verifLexPrefix(err.Error(), 60)
+		" fc=" + verifLexB(fc) + " cp=" + cp + " cor=" + verifLexB(cor) + " es=" + es + " msg=" + verifLexPrefix(err.Error(), 60), false, err
 }
 
 func TestVerifLex(t *testing.T) {
